@@ -65,9 +65,11 @@ def is_pure_validator(fn, by_pat, depth=0):
     return _PV[key]
 
 
-def inlined_guards(fn, by_pat, env=None, depth=0):
-    """(condition node, env) of every `if (cond) throw` guard of fn, including those of pure-validator helpers it calls with the
-    helper's parameters bound to the caller's arguments; plus ("call", name) for calls of check_* functions that are not pure"""
+def inlined_guards(fn, by_pat, env=None, depth=0, outer_ctx=(), force=()):
+    """(condition node, env, context) of every `if (cond) throw` guard of fn, including those of pure-validator helpers it calls with
+    the helper's parameters bound to the caller's arguments; plus ("call", name) for calls of check_* functions that are not pure.
+    context: the branch conditions the guard sits under, as (literal, env) pairs - those of the call site included when the guard
+    comes from a helper.  force: names of check_* / validate_* helpers of the class to see through as well"""
     env = env if env is not None else triggers.flat_env(fn)
     out = []
 
@@ -76,14 +78,15 @@ def inlined_guards(fn, by_pat, env=None, depth=0):
             cal = by_pat.get(n["cpat"])
             helper = cal is not None and cal.get("rect") and cal.get("rect") == fn.get("rect") and cal.get("ret") == "void" and cal.get("body") is not None \
                 and (cal.get("access", 2) != 0 or cal.get("rect") in struct_like(by_pat)) and cal.get("name") not in READER_NAMES and _throws(cal) \
-                and not (cal.get("name") or "").lower().startswith(("check", "validate"))
+                and (not (cal.get("name") or "").lower().startswith(("check", "validate")) or cal.get("name") in force)
             # pure validators, and private void helpers of the reader's own class that reject (a validation loop moved into a
             # helper): their guards count as the reader's, with the parameters bound to the arguments
             if cal is not None and cal is not fn and depth < 3 and (is_pure_validator(cal, by_pat) or helper) and len(cal["params"]) == len(n.get("args", [])):
                 cenv = dict(triggers.flat_env(cal))
                 for p, a in zip(cal["params"], n["args"]):
                     cenv[p["d"]] = ("expr", a, env)
-                out.extend(inlined_guards(cal, by_pat, cenv, depth + 1))
+                call_ctx = [(l, env) for l, o in reach_tagged(fn["body"], n) if o in ("if", "else")]
+                out.extend(inlined_guards(cal, by_pat, cenv, depth + 1, tuple(outer_ctx) + tuple(call_ctx), force))
                 return
             if (n.get("cname") or "").lower().startswith(("check", "validate")) and cal is not None:
                 hit = [False]
@@ -92,10 +95,10 @@ def inlined_guards(fn, by_pat, env=None, depth=0):
                     out.append(("call", n["cname"]))
         if n.get("k") == "If" and always_throws(n.get("t")) and n.get("e") is None:
             # the branch conditions the guard sits under belong to it: `if (a && b) throw` == `if (a) { if (b) throw; .. }`
-            ctx = [l for l, o in reach_tagged(fn["body"], n) if o in ("if", "else")]
+            ctx = [(l, env) for l, o in reach_tagged(fn["body"], n) if o in ("if", "else")]
             # small `return expr;` helpers of the class / of this file read as their expression
             cnd = inline_single_returns(n["c"], by_pat, fn.get("rect"), file=str(fn.get("pat", "")).rsplit(":", 1)[0])
-            out.append((cnd, env, ctx))
+            out.append((cnd, env, ctx, list(outer_ctx)))
     walk(fn["body"], v)
     return out
 
@@ -107,8 +110,8 @@ def guard_item(c, env, ctx=()):
         return None
     if ctx:
         ids, consts = [], []
-        for x in list(ctx) + [c]:
-            triggers.idc(x, env, ids, consts)
+        for x, e in list(ctx) + [(c, env)]:
+            triggers.idc(x, e, ids, consts)
         return "guard:complex|%s|%s" % (",".join(sorted(set(str(i) for i in ids if i))), ",".join(str(x) for x in sorted(set(consts), key=lambda x: (str(type(x)), x))))
     if c.get("k") == "Bin" and c.get("op") in triggers.FLIP:
         op, ids, consts, text = triggers.parts(c, env)
@@ -116,6 +119,37 @@ def guard_item(c, env, ctx=()):
     ids, consts = [], []
     triggers.idc(c, env, ids, consts)
     return "guard:complex|%s|%s" % (",".join(sorted(set(str(i) for i in ids if i))), ",".join(str(x) for x in sorted(set(consts), key=lambda x: (str(type(x)), x))))
+
+
+def wide_item(c, env, ctx):
+    """the form a guard keeps when it moves between a reader and a helper it calls: identifiers, constants and the oriented
+    comparison operators of the condition and of every branch condition above it (those of the call site included)"""
+    ids, consts, ops = [], [], []
+
+    def lits(x, e):
+        triggers.idc(x, e, ids, consts)
+
+        def v(n):
+            if n.get("k") == "Bin" and n.get("op") in triggers.FLIP:
+                ops.append(triggers.parts(n, e)[0])
+            elif n.get("k") == "Un" and n.get("op") == "!":
+                ops.append("!")
+        walk(x, v)
+    for x, e in list(ctx) + [(strip(c), env)]:
+        lits(x, e)
+    return "wide|%s|%s|%s" % (",".join(sorted(set(str(i) for i in ids if i))), ",".join(str(x) for x in sorted(set(consts), key=lambda x: (str(type(x)), x))), " ".join(sorted(ops)))
+
+
+def _items_of(fn, by_pat, force=(), wide=False):
+    items = []
+    for g in inlined_guards(fn, by_pat, force=force):
+        if g[0] == "call":
+            items.append(("call:%s" % g[1], None))
+        else:
+            it = guard_item(g[0], g[1], g[2] if len(g) > 2 else ())
+            if it:
+                items.append((it, wide_item(g[0], g[1], list(g[3]) + list(g[2]))))
+    return items if wide else [i for i, w in items]
 
 
 def inventory(facts):
@@ -133,23 +167,18 @@ def inventory(facts):
         if kind is None:
             continue
         key = "%s(%s)" % (short(fn["patq"]), kind)
-        items = []
-        for g in inlined_guards(fn, by_pat):
-            if g[0] == "call":
-                items.append("call:%s" % g[1])
-            else:
-                it = guard_item(g[0], g[1], g[2] if len(g) > 2 else ())
-                if it:
-                    items.append(it)
+        pairs = sorted(_items_of(fn, by_pat, wide=True), key=lambda x: x[0])
+        items = [i for i, w in pairs]
         if items:
             called = set()
             walk(fn["body"], lambda n: called.add(n.get("cname")) if n.get("k") == "Call" and n.get("cname") else None)
-            inv[key] = {"items": sorted(items), "pat": fn["pat"], "qname": fn["qname"], "calls": called}
+            inv[key] = {"items": sorted(items), "pat": fn["pat"], "qname": fn["qname"], "calls": called, "fn": fn, "by_pat": by_pat, "wide": [w for i, w in pairs]}
     return inv
 
 
 def obligations(facts):
-    sp = json.load(open(os.path.join(VERIF, "spec", "validators.json")))["readers"]
+    spj = json.load(open(os.path.join(VERIF, "spec", "validators.json")))
+    sp, spw = spj["readers"], spj.get("wide", {})
     cur = inventory(facts)
     out = []
     for key, want in sorted(sp.items()):
@@ -157,11 +186,37 @@ def obligations(facts):
             out.append(ob("validators", "validators:" + key, "", "unrecognised", "reader %s (or all of its validations) no longer found" % key, ""))
             continue
         got = list(cur[key]["items"])
+        gotw = list(zip(cur[key]["items"], cur[key]["wide"]))
+        wantw = spw.get(key) or [None] * len(want)
+        # validations moved into a new check_* / validate_* helper of the class: compare with that helper seen through
+        new_checks = set(i.split(":", 1)[1] for i in got if i.startswith("call:")) - set(i.split(":", 1)[1] for i in want if i.startswith("call:"))
+        if new_checks and any(i not in got for i in want):
+            gotw = sorted(_items_of(cur[key]["fn"], cur[key]["by_pat"], force=new_checks, wide=True), key=lambda x: x[0])
+            got = [i for i, w in gotw]
+        # exact matches are taken first; what is left over on both sides is compared in the wide form
+        left = list(got)
+        for item in want:
+            if item in left:
+                left.remove(item)
+        leftw = []
+        pool = list(gotw)
+        for item in left:
+            for q in pool:
+                if q[0] == item:
+                    pool.remove(q)
+                    leftw.append(q)
+                    break
         for j, item in enumerate(want):
             k = "validators:%s:%s#%d" % (key, item.split("|")[0], j)
             if item in got:
                 got.remove(item)
                 out.append(ob("validators", k, cur[key]["pat"], "discharged", item, cur[key]["qname"]))
+            elif len(wantw) == len(want) and wantw[j] is not None and any(w == wantw[j] for i, w in leftw):
+                q = [x for x in leftw if x[1] == wantw[j]][0]
+                leftw.remove(q)
+                if q[0] in got:
+                    got.remove(q[0])
+                out.append(ob("validators", k, cur[key]["pat"], "discharged", "%s (now written as %s: same operands, constants and comparison operators, under the same branch conditions - moved between the reader and a helper)" % (item, q[0]), cur[key]["qname"]))
             elif item.startswith("call:") and item.split(":", 1)[1] in cur[key].get("calls", ()):
                 out.append(ob("validators", k, cur[key]["pat"], "discharged", "%s is still called (it is now a plain list of guards, which are part of this inventory)" % item, cur[key]["qname"]))
             else:
